@@ -101,7 +101,7 @@ def family_A(tier: str) -> Iterator[Prog]:
     if quick:
         combos = [(e1, k1, e2, k2) for e1 in A_E1_CORE for e2 in A_E2_CORE for k1, k2 in A_K2_QUICK]
     else:
-        combos = [(e1, k1, e2, k2) for e1 in A_E1 for e2 in A_E2 for k1, k2 in A_K2]
+        combos = [(e1, k1, e2, k2) for e1 in A_E1[:12] for e2 in A_E2[:12] for k1, k2 in A_K2]
     for e1, k1, e2, k2 in combos:
         if k1 == k2:
             body = wrap([f't = {e1}', f's = {e2}'], k1)
@@ -146,11 +146,12 @@ def family_B(tier: str) -> Iterator[Prog]:
     conds = B_CONDS_CORE if quick else B_CONDS
     arms = B_ARMS_CORE if quick else B_ARMS
     wraps = B_WRAPS[:2] if quick else B_WRAPS
+    wraps1 = wraps if quick else B_WRAPS[1:]
     # (1) two-armed if, same arm expression on both sides (so only the refinement differs)
     for v, pre in subjects:
         for c in (conds[:6] + conds[8:12] if quick else conds):
             for arm in arms:
-                for w in wraps:
+                for w in wraps1:
                     e = arm.format(v=v)
                     lad = [f'if {c.format(v=v)}:', f'    r = {e}', 'else:', f'    r = {e}']
                     yield make('B', pre + wrap(lad, w) + [f'return (r, {v})'], {'x', 'y'} if (v == 'a' or 'y' in e + c) else {'x'},
@@ -159,7 +160,7 @@ def family_B(tier: str) -> Iterator[Prog]:
     for v, pre in subjects[:2]:
         for c in conds:
             cc = c.format(v=v)
-            for arm in (arms[:4] if quick else arms):
+            for arm in (arms[:4] if quick else arms[:6]):
                 e = arm.format(v=v)
                 args = {'x', 'y'}
                 for w in (wraps[1:] if quick else wraps[:2]):
@@ -432,9 +433,8 @@ CELLS_MIXED = [('CM', 'fa', 'fx', 'fa'), ('REAL', 'fa', 'fx', 'fx'), ('CM', 'fc'
                ('CA', 'fx', 'fa', 'fa'), ('CX', 'int', 'fa', 'int'), ('CB', 'real', 'fx', 'fx'), ('REAL', 'fz', 'fa', 'fz')]
 CELL_ONE_ARG = ('CM', 'fc', 'fa')
 CELLS_THOROUGH_EXTRA = [('CU', 'fu', 'fu'), ('INT', 'fa', 'fa'), ('CZ', 'fz', 'fz'), ('CM', 'fa', 'fa'),
-                        ('CB', 'fu', 'fu'), ('REAL', 'fu', 'fu'), ('INT', 'fx', 'fx'), ('CZ', 'fa', 'fa'), ('CA', 'fb', 'fa'),
-                        ('REAL', 'fb', 'fa'), ('REAL', 'real', 'fa'), ('REAL', 'int', 'int'), ('CX', 'real', 'fx'),
-                        ('CU', 'fx', 'fx'), ('CM', 'fx', 'fx')]
+                        ('CB', 'fu', 'fu'), ('REAL', 'fu', 'fu'), ('INT', 'fx', 'fx'), ('CZ', 'fa', 'fa'),
+                        ('REAL', 'real', 'fa'), ('REAL', 'int', 'int'), ('CX', 'real', 'fx'), ('CM', 'fx', 'fx')]
 
 
 def cells(prog: Prog, tier: str):
@@ -442,16 +442,16 @@ def cells(prog: Prog, tier: str):
     out = []
     base = list(CELLS_QUICK)
     if tier != 'quick':
-        base += CELLS_MORE + CELLS_THOROUGH_EXTRA[:4]
+        base += CELLS_MORE
         if prog.fam in ('L', 'H', 'M') or prog.tag == 'A1':
-            base += CELLS_THOROUGH_EXTRA[4:]
+            base += CELLS_THOROUGH_EXTRA
     for c, fs, fl in base:
         out.append((c, {a: ('int' if a == 'n' else fl if a == 'xs' else fs) for a in prog.args}))
     if 'y' not in prog.args and 'xs' not in prog.args:
         c, fs, fl = CELL_ONE_ARG
         out.append((c, {a: ('int' if a == 'n' else fs) for a in prog.args}))
     if 'x' in prog.args and 'y' in prog.args:
-        mixed = CELLS_MIXED[:2] if tier == 'quick' else (CELLS_MIXED if prog.fam in ('L', 'H', 'M') else CELLS_MIXED[:6])
+        mixed = CELLS_MIXED if (tier != 'quick' and prog.fam in ('L', 'H', 'M')) else CELLS_MIXED[:2]
         for c, fx_, fy_, fl in mixed:
             out.append((c, {a: ('int' if a == 'n' else fl if a == 'xs' else fx_ if a == 'x' else fy_) for a in prog.args}))
     return out
